@@ -194,6 +194,25 @@ pub fn lace_tty(args: &[&str], cwd: &Path, keys: &[Vec<u8>], release: bool, limi
 
 /// `lace_tty` with extra environment variables for the child.
 pub fn lace_tty_env(args: &[&str], cwd: &Path, keys: &[Vec<u8>], release: bool, limit_s: u64, envs: &[(&str, &str)]) -> (Run, usize) {
+    lace_term(args, cwd, &TermOpts { keys: Some(keys), piped_stdin: None, stdout_on_tty: false, decoys: &[], envs }, release, limit_s)
+}
+
+/// Which of the child's standard streams are the pseudo-terminal.
+pub struct TermOpts<'a> {
+    /// standard input is the terminal and these keys are typed (each once the previous one was read)
+    pub keys: Option<&'a [Vec<u8>]>,
+    /// standard input is a pipe holding these bytes (used when `keys` is `None`)
+    pub piped_stdin: Option<&'a [u8]>,
+    /// standard output is the terminal (what the program prints is then read from the master side)
+    pub stdout_on_tty: bool,
+    /// bytes typed into the terminal up front that nothing may read (the program's input is the pipe)
+    pub decoys: &'a [u8],
+    pub envs: &'a [(&'a str, &'a str)],
+}
+
+/// Run `lace <args>` with a pseudo-terminal as controlling terminal and as some of its standard
+/// streams (see `TermOpts`). Returns the run and the number of typed keys that were read.
+pub fn lace_term(args: &[&str], cwd: &Path, opts: &TermOpts, release: bool, limit_s: u64) -> (Run, usize) {
     use std::io::Read;
     use std::os::unix::io::FromRawFd;
     use std::os::unix::process::{CommandExt, ExitStatusExt};
@@ -201,10 +220,10 @@ pub fn lace_tty_env(args: &[&str], cwd: &Path, keys: &[Vec<u8>], release: bool, 
     let rc = unsafe { libc::openpty(&mut master, &mut slave, std::ptr::null_mut(), std::ptr::null_mut(), std::ptr::null_mut()) };
     assert!(rc == 0, "openpty failed");
     // The terminal starts out (and is left, whenever the program restores it) in a mode without
-    // line editing, echo or signal keys: a key typed while the program is not reading simply
-    // waits in the queue, unmodified, as if the user had typed it a moment later. That makes the
-    // pacing below a matter of flow control only, free of races with the program's switches
-    // between raw and restored mode.
+    // line editing, echo, output translation or signal keys: a key typed while the program is not
+    // reading simply waits in the queue, unmodified, as if the user had typed it a moment later.
+    // That makes the pacing below a matter of flow control only, free of races with the program's
+    // switches between raw and restored mode.
     unsafe {
         let mut t: libc::termios = std::mem::zeroed();
         if libc::tcgetattr(slave, &mut t) == 0 {
@@ -212,6 +231,7 @@ pub fn lace_tty_env(args: &[&str], cwd: &Path, keys: &[Vec<u8>], release: bool, 
             libc::tcsetattr(slave, libc::TCSANOW, &t);
         }
     }
+    let stdin_tty = opts.keys.is_some();
     let mut cmd = Command::new(lace_bin(release));
     cmd.args(args)
         .current_dir(cwd)
@@ -219,15 +239,16 @@ pub fn lace_tty_env(args: &[&str], cwd: &Path, keys: &[Vec<u8>], release: bool, 
         .env_remove("CLICOLOR_FORCE")
         .env("RUST_BACKTRACE", "0")
         .env("TERM", "xterm")
-        .envs(envs.iter().map(|(k, v)| (k.to_string(), v.to_string())))
-        .stdin(unsafe { Stdio::from_raw_fd(libc::dup(slave)) })
-        .stdout(Stdio::piped())
+        .envs(opts.envs.iter().map(|(k, v)| (k.to_string(), v.to_string())))
+        .stdin(if stdin_tty { unsafe { Stdio::from_raw_fd(libc::dup(slave)) } } else { Stdio::piped() })
+        .stdout(if opts.stdout_on_tty { unsafe { Stdio::from_raw_fd(libc::dup(slave)) } } else { Stdio::piped() })
         .stderr(Stdio::piped());
+    let tty_fd: libc::c_int = if stdin_tty { 0 } else { 1 };
     unsafe {
-        cmd.pre_exec(|| {
+        cmd.pre_exec(move || {
             // own session with the pty as controlling terminal, so that /dev/tty is the pty too
             libc::setsid();
-            libc::ioctl(0, libc::TIOCSCTTY, 0);
+            libc::ioctl(tty_fd, libc::TIOCSCTTY, 0);
             libc::prctl(libc::PR_SET_PDEATHSIG, libc::SIGKILL);
             Ok(())
         });
@@ -239,11 +260,22 @@ pub fn lace_tty_env(args: &[&str], cwd: &Path, keys: &[Vec<u8>], release: bool, 
         let fl = libc::fcntl(master, libc::F_GETFL);
         libc::fcntl(master, libc::F_SETFL, fl | libc::O_NONBLOCK);
     }
-    let mut so = child.stdout.take().unwrap();
+    if let Some(mut si) = child.stdin.take() {
+        use std::io::Write;
+        let _ = si.write_all(opts.piped_stdin.unwrap_or(&[]));
+    }
+    if !opts.decoys.is_empty() {
+        unsafe {
+            libc::write(master, opts.decoys.as_ptr() as *const libc::c_void, opts.decoys.len());
+        }
+    }
+    let so = child.stdout.take();
     let mut se = child.stderr.take().unwrap();
     let t_out = std::thread::spawn(move || {
         let mut v = Vec::new();
-        let _ = so.read_to_end(&mut v);
+        if let Some(mut so) = so {
+            let _ = so.read_to_end(&mut v);
+        }
         v
     });
     let t_err = std::thread::spawn(move || {
@@ -254,9 +286,16 @@ pub fn lace_tty_env(args: &[&str], cwd: &Path, keys: &[Vec<u8>], release: bool, 
     let t0 = std::time::Instant::now();
     let mut timed_out = false;
     let mut typed = 0usize;
-    let drain = |fd: libc::c_int| {
+    let mut tty_out: Vec<u8> = Vec::new();
+    let mut drain = |fd: libc::c_int, sink: &mut Vec<u8>| {
         let mut buf = [0u8; 4096];
-        while unsafe { libc::read(fd, buf.as_mut_ptr() as *mut libc::c_void, buf.len()) } > 0 {}
+        loop {
+            let n = unsafe { libc::read(fd, buf.as_mut_ptr() as *mut libc::c_void, buf.len()) };
+            if n <= 0 {
+                break;
+            }
+            sink.extend_from_slice(&buf[..n as usize]);
+        }
     };
     let pending = |fd: libc::c_int| -> i32 {
         let mut n: libc::c_int = 0;
@@ -267,6 +306,7 @@ pub fn lace_tty_env(args: &[&str], cwd: &Path, keys: &[Vec<u8>], release: bool, 
         }
         n
     };
+    let keys: &[Vec<u8>] = opts.keys.unwrap_or(&[]);
     let status;
     loop {
         if let Ok(Some(st)) = child.try_wait() {
@@ -279,7 +319,7 @@ pub fn lace_tty_env(args: &[&str], cwd: &Path, keys: &[Vec<u8>], release: bool, 
             status = None;
             break;
         }
-        drain(master);
+        drain(master, &mut tty_out);
         // the next key is typed once the previous one has been read by the program
         if typed < keys.len() && pending(slave_probe) == 0 {
             let k = &keys[typed];
@@ -295,7 +335,8 @@ pub fn lace_tty_env(args: &[&str], cwd: &Path, keys: &[Vec<u8>], release: bool, 
         Some(s) => s,
         None => child.wait().expect("wait lace"),
     };
-    // keys still in the queue when the program ended were never read
+    drain(master, &mut tty_out);
+    // keys (or decoys) still in the queue when the program ended were never read
     let unread = pending(slave_probe).max(0) as usize;
     let mut consumed = typed;
     let mut left = unread;
@@ -311,8 +352,11 @@ pub fn lace_tty_env(args: &[&str], cwd: &Path, keys: &[Vec<u8>], release: bool, 
         libc::close(master);
         libc::close(slave_probe);
     }
-    let stdout = t_out.join().unwrap_or_default();
+    let piped_out = t_out.join().unwrap_or_default();
     let stderr = t_err.join().unwrap_or_default();
+    let stdout = if opts.stdout_on_tty { tty_out } else { piped_out };
+    // with decoys: `consumed` reports how many decoy bytes were read instead (should be 0)
+    let consumed = if keys.is_empty() { opts.decoys.len().saturating_sub(unread) } else { consumed };
     (Run { code: st.code(), signal: st.signal(), stdout, stderr, timed_out, deadlocked: false }, consumed)
 }
 
@@ -337,4 +381,45 @@ pub fn stem(variant: u64) -> String {
         19 => "€".repeat(22),
         k => format!("{}{}", "a".repeat(k as usize - 20), "é".repeat(40)),
     }
+}
+
+/// Run `lace <args>` in `cwd` where `<cwd>/<fifo>` is a named pipe through which `bytes` are
+/// delivered once the program opens it (what a file holds must not depend on what `stat` says about
+/// it: a pipe reports length 0). If the program never opens the pipe, nothing is written.
+pub fn lace_fifo(args: &[&str], cwd: &Path, fifo: &str, bytes: &[u8], release: bool, limit_s: u64) -> Run {
+    let path = cwd.join(fifo);
+    let cpath = std::ffi::CString::new(path.to_string_lossy().as_bytes()).unwrap();
+    let rc = unsafe { libc::mkfifo(cpath.as_ptr(), 0o600) };
+    assert!(rc == 0, "mkfifo failed");
+    let stop = std::sync::Arc::new(std::sync::atomic::AtomicBool::new(false));
+    let stop2 = stop.clone();
+    let data = bytes.to_vec();
+    let writer = std::thread::spawn(move || {
+        // a reader must have the pipe open before a non-blocking open for writing succeeds
+        while !stop2.load(Ordering::SeqCst) {
+            let fd = unsafe { libc::open(cpath.as_ptr(), libc::O_WRONLY | libc::O_NONBLOCK | libc::O_CLOEXEC) };
+            if fd >= 0 {
+                unsafe {
+                    let fl = libc::fcntl(fd, libc::F_GETFL);
+                    libc::fcntl(fd, libc::F_SETFL, fl & !libc::O_NONBLOCK);
+                    libc::signal(libc::SIGPIPE, libc::SIG_IGN);
+                    let mut off = 0usize;
+                    while off < data.len() {
+                        let n = libc::write(fd, data[off..].as_ptr() as *const libc::c_void, data.len() - off);
+                        if n <= 0 {
+                            break;
+                        }
+                        off += n as usize;
+                    }
+                    libc::close(fd);
+                }
+                return;
+            }
+            std::thread::sleep(std::time::Duration::from_micros(500));
+        }
+    });
+    let run = lace(args, cwd, &[], release, limit_s);
+    stop.store(true, Ordering::SeqCst);
+    let _ = writer.join();
+    run
 }
